@@ -1,6 +1,6 @@
 (* Lsflow — sFlow v5 datagram decoder (layers/sflow.go): contributions to C19, C05, C01.
    SFlowDatagram has no SerializeTo: C06 and C07 do not apply. *)
-From GP Require Import Base Codec LsflowModel LsflowProofs LsflowBounds.
+From GP Require Import Base Codec LsflowModel LsflowProofs LsflowBounds LsflowSize.
 Open Scope Z_scope.
 
 (* C19: for EVERY list of values (not only octets) and every receiver state, no read of the datagram header, the
@@ -46,6 +46,17 @@ Theorem C19_sflow_strings_bounded : forall n extra e d x r, p_xstr n extra e d =
   exists b, x = SB b /\ (length b <= length d)%nat /\ (length r <= length d)%nat.
 Proof. exact xstr_bounded. Qed.
 Print Assumptions C19_sflow_strings_bounded.
+
+(* (5) the whole decoded structure is linear in the input.  W counts one per node of the sample / record trees and
+   one per octet kept in a byte string (addresses, strings, the header handed to NewPacket); Wl sums it over a list.
+   For every receiver state and every datagram below 2^32-4 octets (where the uint32 padding arithmetic cannot wrap;
+   a UDP payload is below 2^16) the samples left in the layer — also after an error — weigh at most twice the
+   datagram length, whatever the sample, record, path, member, community and length fields say. *)
+Theorem C19_sflow_output_linear : forall old data, zlen data < 4294967292 ->
+  let s := fst (fst (sf_decode_into old data)) in
+  (Wl (sf_fs s) + Wl (sf_cs s) <= 2 * length data)%nat.
+Proof. exact sf_decode_size. Qed.
+Print Assumptions C19_sflow_output_linear.
 
 (* the same for the code before the C05 repair (the repair did not touch any bounds check) *)
 Theorem C19_sflow_orig_no_panic : forall old data, is_panic (snd (fst (sf_decode_into_orig old data))) = false.
@@ -101,5 +112,6 @@ Example Lsflow_nonvacuous :
      Ok tt, false) /\
   snd (fst (sf_decode_into sf_fresh (firstn 119 sf_gw ++ [3] ++ skipn 120 sf_gw))) = Err 36 /\
   (let r := sf_decode_into sf_fresh (firstn 24 sf_gw ++ [255;255;255;255] ++ skipn 28 sf_gw) in
-   snd (fst r) = Err 4 /\ snd r = true /\ length (sf_fs (fst (fst r))) = 1%nat).
-Proof. split; [vm_compute; reflexivity|]. split; [vm_compute; reflexivity|]. vm_compute. repeat split. Qed.
+   snd (fst r) = Err 4 /\ snd r = true /\ length (sf_fs (fst (fst r))) = 1%nat) /\
+  (length sf_gw = 128%nat /\ Wl (sf_fs (fst (fst (sf_decode_into sf_fresh sf_gw)))) = 40%nat).
+Proof. split; [vm_compute; reflexivity|]. split; [vm_compute; reflexivity|]. split; vm_compute; repeat split. Qed.
